@@ -46,8 +46,9 @@ def main():
                 for cid in ids:
                     if not cid or not cid.startswith('C'):
                         continue
-                    p = sh('cd %s && timeout 3000 ./check %s' % (vr, cid), env=env)
-                    last = [l for l in p.stdout.splitlines() if 'quick:' in l]
+                    tier = ' --tier thorough' if 'thorough' in cid else ''
+                    p = sh('cd %s && timeout 6000 ./check %s%s' % (vr, cid[:3], tier), env=env)
+                    last = [l for l in p.stdout.splitlines() if 'quick:' in l or 'thorough:' in l]
                     viol = [l for l in p.stdout.splitlines() if l.startswith('VIOLATION')]
                     out['checks'][cid] = {'violation': bool(viol), 'no_failing_input': any('no-failing-input-found' in l for l in viol), 'line': (last[-1] if last else p.stdout[-300:])}
                     if viol:
